@@ -145,6 +145,11 @@ Example C05_cond_reference_witness :
   run model_d [] [] e2 = run spec_d [] [] e2 /\ run spec_d [] [] e2 = Some (0, OP (PNum 0), [], []).
 Proof. vm_compute. repeat split; reflexivity. Qed.
 
+(* "aaa...a".lastIndexOf("a", NaN): 15.5.4.8 step 5 takes NaN as +Infinity (39); otto starts at 0 *)
+Theorem C05_lastindexof_position_refuted : exists e, run model_d [] [] e <> run spec_d [] [] e.
+Proof. exists (EUn 16 (ELit (VP (PNum nan_bits)))). vm_compute. discriminate. Qed.
+Print Assumptions C05_lastindexof_position_refuted.
+
 (* String(9007199254740993) *)
 Theorem C05_int_repr_tostring_refuted :
   exists n, Some (int_to_string n) <> number_to_string (of_int n).
